@@ -291,7 +291,7 @@ def gate_atoms(fn, nid):
 
 
 def _atom(fn, c):
-    n = fn.sn(c)
+    n = codec.through_locals(fn, c)   # `const bool any_meta = m_options.add_metadata.any();`
     if n is None:
         return ('other', '?')
     if n.get('k') == 'call' and n.get('rcls') == 'osmium::metadata_options' and not n.get('args'):
@@ -1320,10 +1320,21 @@ def writer_order_rules(fb, R):
         R.broken('%s: no function hands the pending buffer %s to OutputFormat::write_buffer (do_flush shape not recognised)' % (W, pend[0]['name']))
         return
 
-    # a method that calls a flusher on every path is a flusher itself (extracted helper `flush_pending()`)
+    # a method that calls a flusher on every path is a flusher itself (extracted helper `flush_pending()`); a method that passes its
+    # Buffer parameter on to a forwarder is a forwarder itself (`hand_over(Buffer&&)` around do_write)
     changed = True
     while changed:
         changed = False
+        for m in methods:
+            if m.usr in forwarders or m.usr in flushers:
+                continue
+            pidx = {p['d']: i for i, p in enumerate(m.params)}
+            for c in m.all_nodes():
+                if c.get('k') == 'call' and c.get('u') in forwarders and len(c.get('args', [])) > forwarders[c['u']]:
+                    r = m.root_var(c['args'][forwarders[c['u']]])
+                    if r is not None and r[0] == 'var' and r[1] in pidx:
+                        forwarders[m.usr] = pidx[r[1]]
+                        changed = True
         for m in methods:
             if m.usr in flushers or m.usr in forwarders:
                 continue
